@@ -481,6 +481,21 @@ def execute(kind, ops, loop):
                             if tgt is not None:
                                 pos = [n for n, o in enumerate(storage.settings) if o is tgt][0]
                                 oracle.check_known(op[1], tgt, list(storage.settings)[:pos], result_of)
+                                # "whatever … credentials have been stored": what update_settings was given
+                                # for the device IS what is stored for it — for every value class, the
+                                # empty string included (None means "nothing to store")
+                                sharing_now = [o for o in storage.settings if set(ids_of(o)) & cids]
+                                protos = [p_ for p_, _i, _c, _pw in c4(op[1])]
+                                if len(sharing_now) == 1 and len(set(protos)) == len(protos):
+                                    for p_, _i, c_, pw_ in c4(op[1]):
+                                        for field, val in (("credentials", c_), ("password", pw_)):
+                                            kpath = "protocols.%s.%s" % (PNAME[p_], field)
+                                            if val is None or kpath not in PATHS or kpath in UNDECLARED:
+                                                continue
+                                            got_v = read_key(tgt, kpath)
+                                            if got_v != val:
+                                                oracle.problem("roundtrip:update-value-not-stored", {"key": kpath, "stored": got_v},
+                                                               val, "update_settings did not store the value it was given")
                     except Exception as e:
                         res = "err:" + type(e).__name__
                 elif kind_op == "scan":
